@@ -218,7 +218,7 @@ pub fn run(run: &Run) {
         }
         rep
     });
-    run.random("random", run.cases(1_000_000, 20_000_000), 0.3, strategy, check);
+    run.random("random", run.cases(2_000_000, 30_000_000), 0.3, strategy, check);
 }
 
 pub fn replay(_section: &str, case: &Json) -> Option<CheckResult> {
